@@ -63,7 +63,7 @@ def base_cmd(target_dir, features, harness):
 def find_mangled(target_dir, harness_fqn, pretty):
     """look the mangled name of `pretty` up in the pretty-name map Kani wrote for this harness"""
     out = set()
-    short = harness_fqn.split("::")[-1]
+    short = "".join("%d%s" % (len(c), c) for c in harness_fqn.split("::")[-2:])
     for f in glob.glob(os.path.join(target_dir, "kani", "**", "*pretty_name_map.json"), recursive=True):
         if short not in os.path.basename(f):
             continue
@@ -162,7 +162,7 @@ def classify(parsed, timed_out, rc, ffi_oracle=False):
 def run_harness(overlay, target_dir, h, logdir, timeout, mem_gb):
     """h: dict(fqn, features, unwindset_ioerr=True, ffi_oracle=False, extra_cbmc=[]) -> result dict"""
     os.makedirs(logdir, exist_ok=True)
-    short = h["fqn"].split("::")[-1]
+    short = ".".join(h["fqn"].split("::")[-2:])
     t0 = time.time()
     cmd = base_cmd(target_dir, h.get("features"), h["fqn"])
     cbmc_args = list(h.get("extra_cbmc", []))
@@ -195,12 +195,16 @@ def run_harness(overlay, target_dir, h, logdir, timeout, mem_gb):
             "cbmc_args": cbmc_args}
 
 
-def playback_print(overlay, target_dir, h, logdir, timeout, mem_gb):
-    """re-run a failing harness with concrete playback; returns the generated unit test text"""
-    short = h["fqn"].split("::")[-1]
+def playback_print(overlay, target_dir, h, logdir, timeout, mem_gb, prop=None):
+    """re-run a failing harness with concrete playback (restricted to the failing CBMC property:
+    a trace for every property of a large harness takes 15 min and 40 GB); returns the generated
+    unit test text"""
+    short = ".".join(h["fqn"].split("::")[-2:])
     cmd = base_cmd(target_dir, h.get("features"), h["fqn"])
     cmd += ["-Z", "concrete-playback", "--concrete-playback=print"]
     cbmc_args = list(h.get("extra_cbmc", []))
+    if prop:
+        cbmc_args += ["--property", prop]
     if h.get("unwindset_ioerr", True):
         for n in find_mangled(target_dir, h["fqn"], IOERR_DROP):
             cbmc_args += ["--unwindset", n + ":1"]
